@@ -210,6 +210,9 @@ func computeBreakAttributes(text []rune, attributes []breakAttr) {
 //	}
 type Segmenter struct {
 	text []rune
+	// the slice given to [Init]: the segments returned by the iterators are subslices of it
+	// (text is a copy, whose storage is reused by the next call to [Init])
+	input []rune
 	// with length len(text) + 1 :
 	// the attribute at indice i is about the
 	// rune at i-1 and i.
@@ -224,6 +227,7 @@ type Segmenter struct {
 // and computes the attributes required to segment the text.
 func (seg *Segmenter) Init(paragraph []rune) {
 	seg.text = append(seg.text[:0], paragraph...)
+	seg.input = paragraph
 	seg.attributes = append(seg.attributes[:0], make([]breakAttr, len(paragraph)+1)...)
 	computeBreakAttributes(seg.text, seg.attributes)
 }
@@ -278,7 +282,7 @@ func (li *LineIterator) Next() bool { return li.next() }
 func (li *LineIterator) Line() Line {
 	return Line{
 		Offset:           li.lastBreak,
-		Text:             li.src.text[li.lastBreak:li.pos], // pos is not included since we break right before
+		Text:             li.src.input[li.lastBreak:li.pos], // pos is not included since we break right before
 		IsMandatoryBreak: li.src.attributes[li.pos]&mandatoryLineBoundary != 0,
 	}
 }
@@ -311,7 +315,7 @@ func (gr *GraphemeIterator) Next() bool { return gr.next() }
 func (gr *GraphemeIterator) Grapheme() Grapheme {
 	return Grapheme{
 		Offset: gr.lastBreak,
-		Text:   gr.src.text[gr.lastBreak:gr.pos],
+		Text:   gr.src.input[gr.lastBreak:gr.pos],
 	}
 }
 
@@ -370,7 +374,7 @@ func (gr *WordIterator) Next() bool {
 func (gr *WordIterator) Word() Word {
 	return Word{
 		Offset: gr.lastBreak,
-		Text:   gr.src.text[gr.lastBreak:gr.pos],
+		Text:   gr.src.input[gr.lastBreak:gr.pos],
 	}
 }
 
